@@ -571,3 +571,54 @@ func vh_C36_subexpire_flow() {
 	}
 	vCover(!gone, "survived-all-ticks")
 }
+
+// vh_C36_liveness_after_expiration_removed: a connection whose expiration is
+// removed by a refresh (ExpireAt 0: "no expiration") is not closed at the old
+// deadline AND keeps its ping/pong liveness: the pending expire timer op must
+// not stop the connection's shared timer.
+func vh_C36_liveness_after_expiration_removed() {
+	n := vNewNode(Config{})
+	serverSide := vChoice("server_side_refresh", 2) == 1
+	n.OnConnecting(func(ctx context.Context, e ConnectEvent) (ConnectReply, error) {
+		return ConnectReply{ClientSideRefresh: !serverSide}, nil
+	})
+	tr := vNewTransport() // ping every 25 s, pong timeout 10 s
+	exp := c36nowUnix() + 5
+	c := c36client(n, tr, exp)
+	c.OnRefresh(func(e RefreshEvent, cb RefreshCallback) {
+		cb(RefreshReply{ExpireAt: 0}, nil)
+	})
+	vAssert(vConnect(c) && !tr.closed, "connect")
+	vSettle()
+	if !serverSide {
+		vAdvance(1 * c36sec)
+		vAssert(c.HandleCommand(&protocol.Command{Id: 9, Refresh: &protocol.RefreshRequest{Token: "t"}}, 0), "refresh proceeds")
+		vSettle()
+	}
+	// well past the old deadline (5 s + 25 s grace) and past two ping intervals
+	pingsBefore := c36countPings(tr)
+	for k := 0; k < 8 && !tr.closed; k++ {
+		vAdvance(10 * c36sec)
+		vSettle()
+		// answer every server ping with a pong (an empty command)
+		if c36countPings(tr) > pingsBefore {
+			pingsBefore = c36countPings(tr)
+			c.HandleCommand(&protocol.Command{}, 0)
+			vSettle()
+		}
+	}
+	vAssert(!tr.closed, "refreshed to no-expiration: never closed as expired")
+	vAssert(c36countPings(tr) >= 2, "server pings continue after the expiration was removed")
+	vCover(serverSide, "server-side-refresh")
+}
+
+func c36countPings(tr *vTransport) int {
+	k := 0
+	for _, f := range tr.frames {
+		// the JSON server ping is the literal frame {} (not produced by an encoder)
+		if len(f) == 2 && f[0] == '{' && f[1] == '}' {
+			k++
+		}
+	}
+	return k
+}
